@@ -8,6 +8,8 @@ C3  if not c: A else: B         ->  if c: B else: A;  x if not c else y -> y if 
                                     made positive:  `is not` -> `is`, `!=` -> `==`, `not in` -> `in`  (arms swapped)
 C4  a > b -> b < a ;  a >= b -> b <= a   (single-operator comparisons)
 C6  x = x + e -> x += e  (also - and *), marked `_fjsa_rebind` (it creates a new object: not an in-place update of a list)
+C8  an if/else one of whose arms always leaves (return / raise / continue / break) loses its else: the leaving arm stays under
+    the if (the raising arm if both leave, the test negated if necessary) and the other arm follows the if
 C5  module-level import aliases are renamed to the conventional name (import numpy as anything -> np, jax.numpy -> jnp,
     haiku -> hk, tensorflow -> tf, `from p import m as x` -> m) when that name is free in the file
 
@@ -141,6 +143,72 @@ class _Polarity(ast.NodeTransformer):
     return node
 
 
+_NEG = {ast.Is: ast.IsNot, ast.Eq: ast.NotEq, ast.In: ast.NotIn, ast.IsNot: ast.Is, ast.NotEq: ast.Eq, ast.NotIn: ast.In,
+        ast.Lt: ast.GtE, ast.LtE: ast.Gt, ast.Gt: ast.LtE, ast.GtE: ast.Lt}
+
+
+def _negate(test: ast.AST) -> ast.AST:
+  if isinstance(test, ast.UnaryOp) and isinstance(test.op, ast.Not):
+    return test.operand
+  if isinstance(test, ast.Compare) and len(test.ops) == 1 and type(test.ops[0]) in (ast.Is, ast.Eq, ast.In, ast.IsNot, ast.NotEq, ast.NotIn):
+    return ast.copy_location(ast.Compare(left=test.left, ops=[_NEG[type(test.ops[0])]()], comparators=test.comparators), test)
+  return ast.copy_location(ast.UnaryOp(op=ast.Not(), operand=test), test)
+
+
+_LEAVE = (ast.Return, ast.Raise, ast.Continue, ast.Break)
+
+
+def _leaves(block) -> bool:
+  if not block:
+    return False
+  last = block[-1]
+  if isinstance(last, _LEAVE):
+    return True
+  if isinstance(last, ast.If) and last.orelse:
+    return _leaves(last.body) and _leaves(last.orelse)
+  return False
+
+
+def _flatten_else(node):
+  """C8, bottom-up over statement lists."""
+  for f in ('body', 'orelse', 'finalbody'):
+    v = getattr(node, f, None)
+    if not (isinstance(v, list) and v and isinstance(v[0], ast.stmt)):
+      continue
+    for st in v:
+      if not isinstance(st, (ast.FunctionDef, ast.AsyncFunctionDef, ast.ClassDef)) or True:
+        _flatten_else(st)
+    i = 0
+    while i < len(v):
+      st = v[i]
+      if isinstance(st, ast.If) and st.orelse:
+        lb, lo = _leaves(st.body), _leaves(st.orelse)
+        swap = None
+        if lb and lo:
+          rb, ro = isinstance(st.body[-1], ast.Raise), isinstance(st.orelse[-1], ast.Raise)
+          if ro and not rb:
+            swap = True
+          elif rb and not ro:
+            swap = False
+          else:
+            swap = len(st.orelse) < len(st.body)
+        elif lb:
+          swap = False
+        elif lo and not (f == 'orelse' and len(v) == 1 and isinstance(node, ast.If)):
+          # (not for the last `elif ... else: raise` of a dispatch chain: its arms stay where they are)
+          swap = True
+        if swap is not None:
+          if swap:
+            st.test = _negate(st.test)
+            st.body, st.orelse = st.orelse, st.body
+          rest = st.orelse
+          st.orelse = []
+          v[i + 1:i + 1] = rest
+      i += 1
+  for h in getattr(node, 'handlers', []) or []:
+    _flatten_else(h)
+
+
 def _aliases(tree: ast.Module):
   bound = {}
   for x in ast.walk(tree):
@@ -188,6 +256,7 @@ def canonicalise(tree: ast.Module, level=None) -> ast.Module:
   if level >= 3:
     tree = _aliases(tree)
     tree = _Polarity().visit(tree)
+    _flatten_else(tree)
   for fn in [n for n in ast.walk(tree) if isinstance(n, (ast.FunctionDef, ast.AsyncFunctionDef))]:
     stores: Dict[str, int] = {}
     loads: Dict[str, int] = {}
@@ -237,3 +306,56 @@ def _blocks(node, stores, loads, level):
     for ch in v:
       if isinstance(ch, ast.AST) and not isinstance(ch, (ast.FunctionDef, ast.AsyncFunctionDef, ast.ClassDef)):
         _blocks(ch, stores, loads, level)
+
+
+def positionalise(repo) -> int:
+  """C7 (needs the resolver, so it runs once all modules are loaded): in a call that resolves to a repository function, method
+  or class, keyword arguments that continue the positional prefix become positional:  f(a, y=2, x=1) with def f(p, x, y) ->
+  f(a, 1, 2). Calls with * / ** arguments or functools.partial bindings are left alone."""
+  if LEVEL < 3:
+    return 0
+  n = 0
+  for m in repo.modules.values():
+    for c in [x for x in ast.walk(m.tree) if isinstance(x, ast.Call)]:
+      if not c.keywords or any(k.arg is None for k in c.keywords) or any(isinstance(a, ast.Starred) for a in c.args):
+        continue
+      try:
+        r = repo.resolve(m.enclosing_scope(c), c.func)
+      except Exception:  # pylint: disable=broad-except
+        continue
+      pos = None
+      if r.kind == 'func' and not r.bound_args and not r.bound_kwargs and isinstance(r.func.node, (ast.FunctionDef, ast.AsyncFunctionDef)):
+        g = r.func
+        if g.node.args.vararg is not None:
+          continue
+        pos = list(g.positional_params)
+        if pos and pos[0] in ('self', 'cls') and isinstance(c.func, ast.Attribute):
+          try:
+            base = repo.resolve(m.enclosing_scope(c), c.func.value)
+          except Exception:  # pylint: disable=broad-except
+            continue
+          if base.kind != 'class':
+            pos = pos[1:]
+      elif r.kind == 'class' and r.cls is not None:
+        init = r.cls.methods.get('__init__')
+        if init is not None:
+          if init.node.args.vararg is not None:
+            continue
+          pos = list(init.positional_params)[1:]
+        elif getattr(r.cls, 'fields', None):
+          pos = [f for f, _, _ in r.cls.fields]
+      if not pos:
+        continue
+      kw = {k.arg: k for k in c.keywords}
+      i = len(c.args)
+      moved = False
+      while i < len(pos) and pos[i] in kw:
+        k = kw.pop(pos[i])
+        c.args.append(k.value)
+        c.keywords.remove(k)
+        m.parent_of[k.value] = c
+        i += 1
+        moved = True
+      if moved:
+        n += 1
+  return n
